@@ -141,9 +141,38 @@ def series_pairs(res, oid, pairs, G, tol, minprec=6, group_input=False, order=18
     per_sign = []
     tmax = tmax_of(pv, G, prefix, group_input)
     if tmax is None:
-        for entry, _, _ in pairs:
-            res.add("%s/%s" % (oid, entry), "error" if not expect_fail else "canary-not-refuted", "jet", 0.0,
-                    "cannot derive the range of the small-angle branch from its switch condition")
+        # the path's switch conditions are not of the form p(inputs) < c with p ~ k t^m (e.g. component-wise tests): the series bound cannot
+        # be set up.  Before giving up (undecided), look for an input ON THIS PATH at which the two outputs differ: that is a violation.
+        wit = None
+        if not expect_fail and pv is not None and not group_input:
+            import random as _rnd
+
+            def _samp(rng):
+                e = G.sample_tangent(rng, prefix, rotnorm=10 ** rng.uniform(-15, -1), tscale=rng.choice([1.0, 30.0]))
+                for n in dag.leaves([x for _, l, r in pairs for x in (l, r)]):
+                    e.setdefault(n.args[0], rng.uniform(-1, 1))
+                return e
+            wit = engine.numeric_witness(pairs, _samp, tries=600, seed=1, rtol=float(tol) * 10 if tol else 1e-6, pathcond=lambda env: engine.path_holds(pv, env))
+        for entry, l, r in pairs:
+            if wit is not None:
+                from .common import write_replay, native_replay, fmt_env
+                try:
+                    val = dag.eval_ieee([l, r], wit["env"])
+                    differs = abs(val[l.id] - val[r.id]) > 1e-9 * (1 + abs(val[l.id]) + abs(val[r.id]))
+                except Exception:
+                    differs = False
+                payload = dict(obligation="%s/%s" % (oid, entry), property=res.prop, backend="jet",
+                               reason="no series bound can be derived for this path (its switch conditions are not a bound on the rotation norm) and the path's "
+                                      "output differs from the closed-form output at an input of the path", witness=dict(env=fmt_env(wit["env"])))
+                if call is not None:
+                    payload["native"] = native_replay(call, wit["env"], pv)
+                res.add("%s/%s" % (oid, entry), "refuted" if differs else "error", "jet", 0.0,
+                        "differs from the closed form at an input of this path" if differs else "undecided: no series bound for this path (this entry agrees at the input where other entries differ)",
+                        witness=dict(env=fmt_env(wit["env"])) if differs else None,
+                        extra=dict(replay=write_replay("%s/%s" % (oid, entry), payload), confirmed=True) if differs else None)
+            else:
+                res.add("%s/%s" % (oid, entry), "error" if not expect_fail else "canary-not-refuted", "jet", 0.0,
+                        "cannot derive the range of the small-angle branch from its switch condition")
         return
     try:
         for sg in signs:
